@@ -119,6 +119,19 @@ def getitem(interp, st, base, idx, node=None):
         key = M.as_key(idx, node)
         _oblige_index(interp, st, base.has(key), node, "key")
         return base.get(key)
+    if isinstance(base, M.RowsShape):
+        n = M.rows_len(interp, st, base.rows, node)
+        if idx == 0:
+            return n
+        if idx == 1:
+            _oblige_index(interp, st, M.s_cmp(ast.Gt(), n, 0), node)
+            return base.rows.width
+        raise Outside("index into shape of rows array", node)
+    if isinstance(base, M.Rows):
+        if isinstance(idx, tuple) or isinstance(idx, slice):
+            raise Outside("multi-dimensional index into rows array", node)
+        v = getitem(interp, st, base.src, idx, node)
+        return v if isinstance(v, Arr) else Arr.from_nested(list(v))
     if isinstance(base, Rec):
         f = interp.lib.find_method(interp, base.cls, "__getitem__", st)
         if f is not None:
@@ -500,6 +513,8 @@ def iter_values(interp, st, v, node=None):
         return v
     if isinstance(v, SymIter):
         return v
+    if isinstance(v, _M().Rows):
+        return iter_values(interp, st, v.src, node)
     if isinstance(v, Rec):
         f = interp.lib.find_method(interp, v.cls, "__iter__", st)
         if f is None and interp.lib.find_method(interp, v.cls, "__getitem__", st) is not None:
@@ -540,6 +555,8 @@ def sym_len(interp, st, v, node=None):
     if isinstance(v, SymIter):
         if v.kind == "enumerate":
             return sym_len(interp, st, v.parts[0], node)
+    if isinstance(v, _M().Rows):
+        return sym_len(interp, st, v.src, node)
     if isinstance(v, Rec):
         f = interp.lib.find_method(interp, v.cls, "__len__", st)
         if f is not None:
